@@ -1,2 +1,3 @@
 -- Every property-theorem module (what `setup.sh` pre-builds).
 import AcryoVerif.Props.C02
+import AcryoVerif.Props.C06
